@@ -77,7 +77,8 @@ Definition subst_err_stmt : Prop :=
    statements above the scanner is determined on ALL texts and never panics or
    runs out of fuel *)
 Definition spec_total_stmt : Prop :=
-  forall isnum pre, (exists ts, tokenises isnum pre ts) \/ (exists n, bad_at isnum pre n).
+  forall isnum pre, isnum_sane isnum ->
+    (exists ts, tokenises isnum pre ts) \/ (exists n, bad_at isnum pre n).
 
 Definition subst_mirror_meets_spec_stmt : Prop :=
   forall isnum pre, isnum_sane isnum ->
